@@ -760,4 +760,20 @@ theorem receiver_postprocess_follows_expectation :
     (Gen.hostPostProcess.filter (fun r => r.2.1 == "recv")).all (fun r => r.2.2.2 == r.2.2.1) = true ∧
     (Gen.hostPostProcess.filter (fun r => r.2.1 == "recv")).length = 3 := by decide
 
+/-! ## (k) the bases the application requests are the bases the link layer is asked for -/
+
+/-- **`request_rotations_follow_requested_bases`.** For `create_measure`, `create_rsp` and the deprecated
+`create(tp=M/R)`, probed on the real code over named / unnamed bases × rotation tuples on both sides: the
+rotations handed to the builder for EACH side, and slots 14..19 of the serialized request (local X1, Y, X2,
+remote X1, Y, X2), are `resolveRot` of THAT side — the named basis' `basis_to_rotation` when a name is
+given, the tuple given for that side otherwise. Together with `named_bases` (each named triple measures
+the Pauli its name says) the link layer is asked to measure in the bases the application requested. -/
+theorem request_rotations_follow_requested_bases :
+    Gen.rotProbes.all probeOk = true ∧
+    (∀ (rot : Rot), resolveRot Gen.bases none rot = some rot) ∧
+    (∀ (b : String) (rot : Rot), resolveRot Gen.bases (some b) rot = basisRot Gen.bases b) :=
+  ⟨rot_probes_ok, fun _ => rfl, fun _ _ => rfl⟩
+
+example : requestRots Gen.bases (some "X") none (3, 5, 7) (0, 8, 0) = some ((0, 24, 0), (0, 8, 0)) := by decide
+
 end NQ.C10
